@@ -87,7 +87,7 @@ fn c15_extremes(seed: u64) -> Scenario {
     g::extremes(seed, "c15_extremes")
 }
 
-pub const ALL: &[&str] = &["C01", "C02", "C03", "C04", "C05", "C06", "C07", "C08", "C09", "C11", "C12", "C14", "C15", "C16", "C17", "C18", "C19"];
+pub const ALL: &[&str] = &["C01", "C02", "C03", "C04", "C05", "C06", "C07", "C08", "C09", "C11", "C12", "C13", "C14", "C15", "C16", "C17", "C18", "C19"];
 
 pub fn families(property: &str) -> Vec<Family> {
     match property {
@@ -116,6 +116,7 @@ pub fn families(property: &str) -> Vec<Family> {
         "C08" => vec![fam("c08_cycles", g::c08_cycles, 8_000, 200_000)],
         "C09" => vec![fam("c09_isn", g::c09_isn, 25_000, 600_000), Family { fault_free: true, ..fam("c09_wide", g::c09_wide, 150, 5_000) }],
         "C12" => vec![fam("c12_many", g::c12_many, 12_000, 300_000)],
+        "C13" => vec![fam("c13_pairing", g::c13_pairing, 12_000, 300_000)],
         "C11" => vec![fam("c11_corrupt", g::c11_corrupt, 20_000, 500_000), fam("c11_unknown_ext", g::c11_unknown_ext, 10_000, 300_000), fam("c01_duplex", c01_duplex, 10_000, 200_000)],
         "C14" => vec![fam("c14_blackhole", g::c14_blackhole, 15_000, 400_000), fam("c14_converge", g::c14_converge, 600, 20_000), fam("c01_duplex", c01_duplex, 10_000, 200_000)],
         "C15" | "C16" => vec![fam("c01_duplex", c01_duplex, 20_000, 500_000), fam("c15_extremes", c15_extremes, 15_000, 400_000), fam("c14_blackhole", g::c14_blackhole, 5_000, 100_000)],
@@ -194,6 +195,7 @@ pub fn oracle(property: &str) -> OracleFn {
         "C09" => oracles::c09::check,
         "C11" => c11_oracle,
         "C12" => oracles::c12::check,
+        "C13" => oracles::c13::check,
         "C14" => c14_oracle,
         "C15" => oracles::c15::check,
         "C17" => oracles::c17::check,
@@ -217,6 +219,7 @@ pub fn expected_probes(property: &str) -> Vec<&'static str> {
         "C09" => vec!["shifted_run_seq_wrapped", "shifted_run_conn_id_wrapped", "shifted_run_data_packets"],
         "C11" => vec!["emitted_datagrams_checked", "emitted_with_extension", "verdicts_accept_corrupted", "verdicts_reject_corrupted", "unknown_extension_delivered"],
         "C12" => vec!["max_live_connections_on_one_socket", "connections_established", "connections_completed_in_loss_free_runs", "connects_refused_at_the_limit"],
+        "C13" => vec!["max_backlog_seen", "backlog_filled", "syns_refused_with_reset", "hand_overs_judged_for_order", "connects_ok", "connects_cancelled", "accepts_cancelled", "duplicate_syn_delivered", "connect_failed_for_lack_of_slot"],
         "C14" => vec!["probes_acked", "probes_failed_and_resegmented", "converged_transfers"],
         "C17" => vec!["state_x_packet_pairs", "peer_fin_in_sequence", "peer_fin_out_of_sequence", "reset_delivered", "own_fin_sent", "own_fin_retransmitted", "synack_retries_exhausted"],
         "C15" => vec!["cc_rto_events", "cc_recovery_entries", "cc_mss_changes", "cc_slow_start_acks", "cc_congestion_avoidance_acks"],
@@ -241,6 +244,7 @@ pub fn rule(property: &str) -> String {
         "C09" => "relevance probe: in the shifted run a data/FIN sequence number actually wrapped past 65535 (each case is a PAIR of runs: base numbers and shifted numbers).",
         "C11" => "relevance probe: at least one corrupted datagram reached a real socket's parser (verdict recorded) and at least one emitted datagram was checked.",
         "C12" => "relevance probe: at least two connections were established (connect Ok and surfaced at an accept) in the run.",
+        "C13" => "relevance probe: at least two connects surfaced at accept calls in the run.",
         "C14" => "relevance probe: at least one MTU probe was acknowledged and at least one failed and was re-segmented.",
         "C17" => "relevance probe: at least 4 distinct (connection state, delivered packet type) pairs were exercised in the run (scripted packet sequences and omissions are the 'faults' of this family).",
         "C15" => "relevance probe: at least one timeout, recovery entry or MSS change reached the congestion controller of a running connection.",
